@@ -254,6 +254,27 @@ Inductive tail_result :=
 | TailOk (n : nat) (dest title : bytes)
 | TailFuel.                              (* never: excluded by the theorems *)
 
+(* what follows the destination: optional title, then the closing parenthesis;
+   [total] is the length of the whole tail text *)
+Definition tail_after_dest (fuel total : nat) (dest rest : bytes) : tail_result :=
+  let s2 := skip_ws rest in
+  let title_res :=
+    match s2 with
+    | q :: r2 =>
+      if (q =? 39) || (q =? 34) || (q =? 40) then
+        title_body fuel q (if q =? 40 then 41 else q) r2 []
+      else Some ([], s2)
+    | [] => Some ([], s2)
+    end in
+  match title_res with
+  | None => TailNone
+  | Some (title, rest2) =>
+    match skip_ws rest2 with
+    | c3 :: rest3 => if c3 =? 41 then TailOk (total - length rest3) dest title else TailNone
+    | [] => TailNone
+    end
+  end.
+
 Definition parse_link_tail (text : bytes) : tail_result :=
   let fuel := S (length text) in
   match text with
@@ -264,40 +285,17 @@ Definition parse_link_tail (text : bytes) : tail_result :=
     match s1 with
     | [] => TailNone
     | c :: r =>
-      let dest_res :=
-        if c =? 60 then
-          match angle_dest fuel r [] with
-          | Some (d, rest) => Some (Some (d, rest))
-          | None => Some None
-          end
-        else
-          match bare_dest fuel s1 [] 0 with
-          | Some (d, rest, O) => Some (Some (d, rest))
-          | Some (_, _, S _) => Some None
-          | None => None
-          end in
-      match dest_res with
-      | None => TailFuel
-      | Some None => TailNone
-      | Some (Some (dest, rest)) =>
-        let s2 := skip_ws rest in
-        let title_res :=
-          match s2 with
-          | q :: r2 =>
-            if (q =? 39) || (q =? 34) || (q =? 40) then
-              title_body fuel q (if q =? 40 then 41 else q) r2 []
-            else Some ([], s2)
-          | [] => Some ([], s2)
-          end in
-        match title_res with
+      if c =? 60 then
+        match angle_dest fuel r [] with
+        | Some (d, rest) => tail_after_dest fuel (length text) d rest
         | None => TailNone
-        | Some (title, rest2) =>
-          match skip_ws rest2 with
-          | c3 :: rest3 => if c3 =? 41 then TailOk (length text - length rest3) dest title else TailNone
-          | [] => TailNone
-          end
         end
-      end
+      else
+        match bare_dest fuel s1 [] 0 with
+        | Some (d, rest, O) => tail_after_dest fuel (length text) d rest
+        | Some (_, _, S _) => TailNone
+        | None => TailFuel
+        end
     end end
   | [] => TailNone
   end.
